@@ -25,7 +25,8 @@ theorem C07_tie_model_writes (k : KeyId) (c : Crt) :
 /-- storeTx: loads first, stores next, and rolls back with a restoring Store or a Delete
 inside the failure branch of a store -/
 theorem C07_tie_storeTx_shape :
-    acts CM.Gen.C07.sk_storeTx = ["s.Load", "s.Store", "s.Store", "s.Delete"] := by decide
+    acts CM.Gen.C07.sk_storeTx =
+      ["Load", "Store", "Store", "Delete"].map (fun m => CM.Gen.C07.storeTxParam ++ "." ++ m) := by decide
 
 /-- quarantine: load the key, store the copy, delete the key -/
 theorem C07_tie_quarantine_shape :
